@@ -90,6 +90,15 @@ def compare(rep, exe, invocations, label="grouping"):
         impl_v = verdicts[i]
         d = impl_groups[j]
         rep.count(label + ":" + str(impl_v).split(":")[0])
+        # hypotheses of C05_flat_order_free_exec evaluated on this input (last two entries of every `parse` answer)
+        try:
+            flat = (v[0], v[-2] == "1", v[-1] == "1")
+            if not hasattr(rep, "flat_info"):
+                rep.flat_info = {}
+            rep.flat_info[inv] = flat
+            rep.count(label + ":flatOrderPre=" + str(int(flat[1] and flat[2])))
+        except Exception:
+            pass
         cj = {"what": "grouping: model vs ImplGroups::parse", "invocation": inv[:3000]}
         if impl_v == "abort":
             # validation aborted after the grouping was formed: the grouping itself is not observable; the model must at least form one
